@@ -208,3 +208,114 @@ def check_first_error_wins(c: Check, rule: str, fd: FuncDef, is_elem_call, iter_
         plain = isinstance(it, (ast.Name, ast.Attribute))
         c.expect(plain, rule, fd.key.split(':')[-1] + '/iterates-in-order',
                  'the loop iterates %s, not the sequence in its own order' % unparse(it), fd.loc())
+
+
+# ------------------------------------------------------------------ REFS: reported references are complete
+
+def _sdv_ctor_params(ix: Index, cls: ClassDef):
+    out = {}
+    for k in ix.mro(cls):
+        if not isinstance(k, ClassDef):
+            continue
+        init = k.methods.get('__init__')
+        if init is None:
+            continue
+        for p in init.params[1:]:
+            ann = unparse(p.annotation) if p.annotation is not None else ''
+            if ('Sdv' in ann or 'SymbolReference' in ann) and 'Validator' not in ann and 'Callable' not in ann:
+                out.setdefault((k.key, p.arg), (init, p))
+    return out
+
+
+def _mentioned_by(ix: Index, cls: ClassDef, start: List[str]):
+    """self-attributes and constructor parameters that (transitively) feed the given members of cls"""
+    seen, names, work = set(), set(), list(start)
+    while work:
+        n = work.pop()
+        if n in seen:
+            continue
+        seen.add(n)
+        f = ix.class_member(cls, n)
+        if isinstance(f, FuncDef):
+            for x in ast.walk(f.node):
+                if isinstance(x, ast.Attribute) and isinstance(x.value, ast.Name) and x.value.id == f.self_name:
+                    if x.attr not in names:
+                        names.add(x.attr)
+                        work.append(x.attr)
+        for meth, v, st in ix.self_attr_assignments(cls, n):
+            if meth.name == '__init__' and v is not None:
+                for x in ast.walk(v):
+                    if isinstance(x, ast.Attribute) and isinstance(x.value, ast.Name) and x.value.id == meth.self_name:
+                        if x.attr not in names:
+                            names.add(x.attr)
+                            work.append(x.attr)
+                    if isinstance(x, ast.Name):
+                        names.add('param:' + x.id)
+                # assigned inside a loop of the constructor: what the loop iterates feeds it too
+                from ..core import ancestors
+                for a in ancestors(st):
+                    if a is meth.node:
+                        break
+                    if isinstance(a, (ast.For, ast.comprehension)):
+                        for x in ast.walk(a.iter):
+                            if isinstance(x, ast.Name):
+                                names.add('param:' + x.id)
+    return names
+
+
+def check_references_complete(c: Check, rule: str, prefixes=('exactly_lib.impls',), floor: int = 40) -> int:
+    """REFS: a class that reports symbol usages / references reports those of every symbol-dependent value
+    (constructor parameter typed ...Sdv / SymbolReference) it is built from - an unreported reference is never
+    validated (definition, type, relativity restriction)."""
+    import re
+    ix = c.ix
+    alltext = '\n'.join(ix.text(n) for n in ix.all_module_names())
+    n = 0
+    for prefix in prefixes:
+        for modname in ix.all_module_names():
+            if not (modname == prefix or modname.startswith(prefix + '.')):
+                continue
+            t = ix.text(modname)
+            if 'Sdv' not in t or not ('def symbol_usages' in t or 'def references' in t or 'symbol_usages' in t):
+                continue
+            m = ix.module(modname)
+            for cls in m.all_classes:
+                su = ix.class_member(cls, 'symbol_usages')
+                rf = ix.class_member(cls, 'references')
+                from .. import util
+                target = None
+                if isinstance(su, FuncDef) and not util.is_abstract_body(su):
+                    target = 'symbol_usages'
+                elif isinstance(rf, FuncDef) and not util.is_abstract_body(rf):
+                    target = 'references'
+                if target is None:
+                    continue
+                if not re.search(r'(?<!class )(?<![\w])%s\(' % re.escape(cls.name), alltext):
+                    continue  # never instantiated by name: a base class
+                sp = _sdv_ctor_params(ix, cls)
+                if not sp:
+                    continue
+                names = _mentioned_by(ix, cls, [target])
+                if 'param:symbol_usages' in names or 'param:references' in names:
+                    continue  # the usages are supplied by the creator
+                n += 1
+                for (ck, pn), (init, p) in sorted(sp.items()):
+                    stored = set()
+                    consulted = ('param:' + pn) in names
+                    for x in ast.walk(init.node):
+                        if isinstance(x, ast.Assign):
+                            for tg in x.targets:
+                                if isinstance(tg, ast.Attribute) and isinstance(tg.value, ast.Name) \
+                                        and tg.value.id == init.self_name \
+                                        and any(isinstance(y, ast.Name) and y.id == pn for y in ast.walk(x.value)):
+                                    stored.add(tg.attr)
+                        if isinstance(x, ast.Call) and isinstance(x.func, ast.Attribute) and x.func.attr == '__init__':
+                            vals = list(x.args) + [kw.value for kw in x.keywords]
+                            if any(isinstance(y, ast.Name) and y.id == pn for a in vals for y in ast.walk(a)):
+                                consulted = True  # handed to the base class, judged there
+                    c.expect(bool(stored & names) or consulted, rule, 'reports-references/%s(%s)' % (cls.key, pn),
+                             '%s.%s does not include the references of its constructor argument %s (stored as %s): '
+                             'symbols referenced there are never validated' % (cls.name, target, pn, sorted(stored)),
+                             cls.loc())
+    c.floor(rule, 'classes whose reported references are checked', n, floor)
+    return n
